@@ -32,7 +32,9 @@ type Ctx struct {
 	immutableGlobals   map[*ssa.Global]bool
 	uniqueAllocGlobals map[*ssa.Global]bool
 	usedUnique map[string]bool
+	usedUniqueErr map[string]bool
 	contractErrors []string
+	errGlobals map[*ssa.Global]bool
 	allFuncs map[*ssa.Function]bool
 }
 
@@ -59,11 +61,11 @@ func loadCtx(repo, contracts string) (*Ctx, error) {
 	if len(pkgs[0].Errors) > 0 {
 		return nil, fmt.Errorf("package errors: %v", pkgs[0].Errors)
 	}
-	prog, spkgs := ssautil.AllPackages(pkgs, ssa.InstantiateGenerics)
+	prog, spkgs := ssautil.AllPackages(pkgs, ssa.InstantiateGenerics|ssa.GlobalDebug)
 	prog.Build()
 	c := &Ctx{prog: prog, pkg: spkgs[0], tpkg: pkgs[0].Types, fset: pkgs[0].Fset, files: pkgs[0].Syntax, ppkg: pkgs[0],
 		funcs: map[string]*ssa.Function{}, tags: map[string]int{}, tagTypes: map[int]types.Type{}, usedIfaces: map[string]*types.Interface{},
-		globals: map[string]int{}, immutableGlobals: map[*ssa.Global]bool{}, uniqueAllocGlobals: map[*ssa.Global]bool{}, usedUnique: map[string]bool{}}
+		globals: map[string]int{}, immutableGlobals: map[*ssa.Global]bool{}, uniqueAllocGlobals: map[*ssa.Global]bool{}, usedUnique: map[string]bool{}, usedUniqueErr: map[string]bool{}, errGlobals: map[*ssa.Global]bool{}}
 	c.allFuncs = ssautil.AllFunctions(prog)
 	for f := range c.allFuncs {
 		if f.Pkg == c.pkg || (f.Pkg == nil && (recvInPkg(f, c.tpkg) || (f.Parent() != nil && f.Parent().Pkg == c.pkg))) {
@@ -119,6 +121,10 @@ func (c *Ctx) scanGlobals() {
 						} else {
 							if _, isAlloc := st.Val.(*ssa.Alloc); isAlloc {
 								initAlloc[g]++
+							} else if call, isCall := st.Val.(*ssa.Call); isCall && call.Common().StaticCallee() != nil &&
+								(call.Common().StaticCallee().String() == "errors.New" || call.Common().StaticCallee().String() == "fmt.Errorf") {
+								initAlloc[g]++
+								c.errGlobals[g] = true
 							} else {
 								initAlloc[g] += 100
 							}
